@@ -168,3 +168,7 @@ def run(ctx: Ctx) -> None:
         else:
             r.check(not regw, sn, f.loc(), f"{sn} writes registers: {[w.describe() for w in regw[:2]]}")
     r.floor(5)
+    from ..stagespec import datapath_rule
+    datapath_rule(ctx, "R08.mux")
+    from ..pipelinespec import step_rule
+    step_rule(ctx, "R08.step")
